@@ -2,45 +2,74 @@
 use nalgebra::DMatrix;
 use ndarray::Array2;
 use smartcore::linalg::naive::dense_matrix::DenseMatrix;
-use smartcore::linalg::BaseMatrix;
+use smartcore::linalg::Matrix;
 use vharness::*;
 
-fn nd(rows: &[Vec<f64>]) -> Array2<f64> {
-    let n = rows.len();
-    let p = rows[0].len();
-    Array2::from_shape_vec((n, p), rows.iter().flatten().cloned().collect()).unwrap()
+type Rows = Vec<Vec<f64>>;
+trait Mk: Matrix<f64> {
+    fn mk(rows: &Rows) -> Self;
 }
-fn na(rows: &[Vec<f64>]) -> DMatrix<f64> {
-    let n = rows.len();
-    let p = rows[0].len();
-    DMatrix::from_row_slice(n, p, &rows.iter().flatten().cloned().collect::<Vec<f64>>())
+impl Mk for DenseMatrix<f64> {
+    fn mk(rows: &Rows) -> Self {
+        dense(rows)
+    }
+}
+impl Mk for Array2<f64> {
+    fn mk(rows: &Rows) -> Self {
+        let n = rows.len();
+        let p = rows[0].len();
+        Array2::from_shape_vec((n, p), rows.iter().flatten().cloned().collect()).unwrap()
+    }
+}
+impl Mk for DMatrix<f64> {
+    fn mk(rows: &Rows) -> Self {
+        let n = rows.len();
+        let p = rows[0].len();
+        DMatrix::from_row_slice(n, p, &rows.iter().flatten().cloned().collect::<Vec<f64>>())
+    }
+}
+
+fn probe<M: Mk>(name: &str) {
+    let row: Rows = vec![vec![1.0, 2.0, 3.0]];
+    let col: Rows = vec![vec![4.0], vec![5.0], vec![6.0]];
+    let sq: Rows = vec![vec![1.0, 2.0], vec![3.0, 4.0]];
+    let sq3: Rows = vec![vec![1.0, 2.0, 3.0], vec![4.0, 5.0, 6.0], vec![7.0, 8.0, 10.0]];
+    println!("--- {}", name);
+    println!("dot row.col {:?}", guard(|| M::mk(&row).dot(&M::mk(&col))));
+    println!("dot col.col {:?}", guard(|| M::mk(&col).dot(&M::mk(&col))));
+    println!("dot sq.sq {:?}", guard(|| M::mk(&sq).dot(&M::mk(&sq))));
+    println!("dot row3.row2 {:?}", guard(|| M::mk(&row).dot(&M::mk(&vec![vec![1.0, 2.0]]))));
+    println!("max_diff 2x2 vs 3x3 {:?}", guard(|| M::mk(&sq).max_diff(&M::mk(&sq3))));
+    println!("max_diff row vs col {:?}", guard(|| M::mk(&row).max_diff(&M::mk(&col))));
+    println!("max_diff 3x3 vs 2x2 {:?}", guard(|| M::mk(&sq3).max_diff(&M::mk(&sq))));
+    println!("copy_row short {:?}", guard(|| { let mut b = vec![-7.0, -8.0]; M::mk(&sq3).copy_row_as_vec(0, &mut b); b }));
+    println!("copy_col short {:?}", guard(|| { let mut b = vec![-7.0, -8.0]; M::mk(&sq3).copy_col_as_vec(0, &mut b); b }));
+    println!("copy_row long {:?}", guard(|| { let mut b = vec![-7.0, -8.0, -9.0, -10.0]; M::mk(&sq3).copy_row_as_vec(0, &mut b); b }));
+    println!("set(3,0) on 3x3 {:?}", guard(|| { let mut m = M::mk(&sq3); m.set(3, 0, 9.0); m.get(0, 1) }));
+    println!("slice empty oob {:?}", guard(|| M::mk(&sq3).slice(5..5, 0..1).shape()));
+    println!("slice reversed {:?}", guard(|| M::mk(&sq3).slice(2..1, 0..1).shape()));
+    println!("slice oob {:?}", guard(|| M::mk(&sq3).slice(2..4, 0..1).shape()));
+    println!("div_scalar 3 {:?}", guard(|| M::mk(&sq3).div_scalar(3.0).get(2, 2).to_bits()));
+    println!("sub_scalar 0.1 {:?}", guard(|| M::mk(&sq3).sub_scalar(0.1).get(2, 2).to_bits()));
+    println!("take oob {:?}", guard(|| M::mk(&sq3).take(&[3], 0).shape()));
+    println!("reshape bad {:?}", guard(|| M::mk(&sq3).reshape(2, 4).shape()));
+    println!("add mism {:?}", guard(|| M::mk(&sq3).add(&M::mk(&sq)).shape()));
+    println!("mul mism row/col {:?}", guard(|| M::mk(&row).mul(&M::mk(&col)).shape()));
+    println!("copy_from mism {:?}", guard(|| { let mut m = M::mk(&row); m.copy_from(&M::mk(&col)); m.shape() }));
+    println!("matmul mism {:?}", guard(|| M::mk(&row).matmul(&M::mk(&row)).shape()));
+    println!("hstack mism {:?}", guard(|| M::mk(&row).h_stack(&M::mk(&col)).shape()));
+    println!("vstack mism {:?}", guard(|| M::mk(&row).v_stack(&M::mk(&col)).shape()));
+    println!("approx_eq mism {:?}", guard(|| M::mk(&row).approximate_eq(&M::mk(&col), 0.5)));
+    println!("scale short {:?}", guard(|| { let mut m = M::mk(&sq3); m.scale_mut(&[0.0], &[1.0], 0); m.get(0, 0) }));
+    println!("get_row oob {:?}", guard(|| M::mk(&sq3).get_row_as_vec(3)));
+    println!("cov 1 row {:?}", guard(|| M::mk(&row).cov().get(0, 0)));
+    println!("transposed reshape {:?}", guard(|| M::mk(&sq3).transpose().reshape(1, 9).get_row_as_vec(0)));
+    println!("transposed sum {:?}", guard(|| M::mk(&sq3).transpose().sum()));
 }
 
 fn main() {
     quiet_panics();
-    let row = vec![vec![1.0, 2.0, 3.0]];
-    let col = vec![vec![4.0], vec![5.0], vec![6.0]];
-    let sq = vec![vec![1.0, 2.0], vec![3.0, 4.0]];
-    let sq3 = vec![vec![1.0, 2.0, 3.0], vec![4.0, 5.0, 6.0], vec![7.0, 8.0, 10.0]];
-    println!("dot row.col  dense {:?} nd {:?} na {:?}", guard(|| dense(&row).dot(&dense(&col))), guard(|| nd(&row).dot(&nd(&col))), guard(|| BaseMatrix::dot(&na(&row), &na(&col))));
-    println!("dot col.col  dense {:?} nd {:?} na {:?}", guard(|| dense(&col).dot(&dense(&col))), guard(|| BaseMatrix::dot(&nd(&col), &nd(&col))), guard(|| BaseMatrix::dot(&na(&col), &na(&col))));
-    println!("dot sq.sq  dense {:?} nd {:?} na {:?}", guard(|| dense(&sq).dot(&dense(&sq))), guard(|| BaseMatrix::dot(&nd(&sq), &nd(&sq))), guard(|| BaseMatrix::dot(&na(&sq), &na(&sq))));
-    println!("max_diff 2x2 vs 3x3  dense {:?} nd {:?} na {:?}", guard(|| dense(&sq).max_diff(&dense(&sq3))), guard(|| nd(&sq).max_diff(&nd(&sq3))), guard(|| na(&sq).max_diff(&na(&sq3))));
-    println!("max_diff row vs col  dense {:?} nd {:?} na {:?}", guard(|| dense(&row).max_diff(&dense(&col))), guard(|| nd(&row).max_diff(&nd(&col))), guard(|| na(&row).max_diff(&na(&col))));
-    println!("max_diff 3x3 vs 2x2  dense {:?} nd {:?} na {:?}", guard(|| dense(&sq3).max_diff(&dense(&sq))), guard(|| nd(&sq3).max_diff(&nd(&sq))), guard(|| na(&sq3).max_diff(&na(&sq))));
-    let short = |m: &dyn Fn(&mut Vec<f64>)| { let mut b = vec![-7.0, -8.0]; m(&mut b); b };
-    println!("copy_row short buf dense {:?} nd {:?} na {:?}", guard(|| short(&|b| dense(&sq3).copy_row_as_vec(0, b))), guard(|| short(&|b| nd(&sq3).copy_row_as_vec(0, b))), guard(|| short(&|b| na(&sq3).copy_row_as_vec(0, b))));
-    println!("copy_col short buf dense {:?} nd {:?} na {:?}", guard(|| short(&|b| dense(&sq3).copy_col_as_vec(0, b))), guard(|| short(&|b| nd(&sq3).copy_col_as_vec(0, b))), guard(|| short(&|b| na(&sq3).copy_col_as_vec(0, b))));
-    println!("set(3,0) on 3x3 dense {:?} nd {:?} na {:?}", guard(|| { let mut m = dense(&sq3); m.set(3, 0, 9.0); m.get(0, 1) }), guard(|| { let mut m = nd(&sq3); m.set(3, 0, 9.0); 0.0 }), guard(|| { let mut m = na(&sq3); m.set(3, 0, 9.0); 0.0 }));
-    println!("slice empty oob dense {:?} nd {:?} na {:?}", guard(|| dense(&sq3).slice(5..5, 0..1).shape()), guard(|| BaseMatrix::slice(&nd(&sq3), 5..5, 0..1).shape().to_vec()), guard(|| BaseMatrix::slice(&na(&sq3), 5..5, 0..1).shape()));
-    println!("slice reversed dense {:?} nd {:?} na {:?}", guard(|| dense(&sq3).slice(2..1, 0..1).shape()), guard(|| BaseMatrix::slice(&nd(&sq3), 2..1, 0..1).shape().to_vec()), guard(|| BaseMatrix::slice(&na(&sq3), 2..1, 0..1).shape()));
-    println!("div_scalar 3 dense {:?} nd {:?} na {:?}", guard(|| dense(&sq3).div_scalar(3.0).get(2, 2)), guard(|| nd(&sq3).div_scalar(3.0).get(2, 2)), guard(|| na(&sq3).div_scalar(3.0).get(2, 2)));
-    println!("take oob dense {:?} nd {:?} na {:?}", guard(|| dense(&sq3).take(&[3], 0).shape()), guard(|| BaseMatrix::take(&nd(&sq3), &[3], 0).shape().to_vec()), guard(|| BaseMatrix::take(&na(&sq3), &[3], 0).shape()));
-    println!("reshape bad dense {:?} nd {:?} na {:?}", guard(|| dense(&sq3).reshape(2, 4).shape()), guard(|| BaseMatrix::reshape(&nd(&sq3), 2, 4).shape().to_vec()), guard(|| BaseMatrix::reshape(&na(&sq3), 2, 4).shape()));
-    println!("add mism dense {:?} nd {:?} na {:?}", guard(|| dense(&sq3).add(&dense(&sq)).shape()), guard(|| BaseMatrix::add(&nd(&sq3), &nd(&sq)).shape().to_vec()), guard(|| BaseMatrix::add(&na(&sq3), &na(&sq)).shape()));
-    println!("mul mism row/col dense {:?} nd {:?} na {:?}", guard(|| dense(&row).mul(&dense(&col)).shape()), guard(|| BaseMatrix::mul(&nd(&row), &nd(&col)).shape().to_vec()), guard(|| BaseMatrix::mul(&na(&row), &na(&col)).shape()));
-    println!("copy_from mism dense {:?} nd {:?} na {:?}", guard(|| { let mut m = dense(&row); m.copy_from(&dense(&col)); m.shape() }), guard(|| { let mut m = nd(&row); BaseMatrix::copy_from(&mut m, &nd(&col)); 0 }), guard(|| { let mut m = na(&row); BaseMatrix::copy_from(&mut m, &na(&col)); 0 }));
-    println!("matmul mism dense {:?} nd {:?} na {:?}", guard(|| dense(&row).matmul(&dense(&row)).shape()), guard(|| BaseMatrix::matmul(&nd(&row), &nd(&row)).shape().to_vec()), guard(|| BaseMatrix::matmul(&na(&row), &na(&row)).shape()));
-    println!("hstack mism dense {:?} nd {:?} na {:?}", guard(|| dense(&row).h_stack(&dense(&col)).shape()), guard(|| BaseMatrix::h_stack(&nd(&row), &nd(&col)).shape().to_vec()), guard(|| BaseMatrix::h_stack(&na(&row), &na(&col)).shape()));
-    println!("vstack mism dense {:?} nd {:?} na {:?}", guard(|| dense(&row).v_stack(&dense(&col)).shape()), guard(|| BaseMatrix::v_stack(&nd(&row), &nd(&col)).shape().to_vec()), guard(|| BaseMatrix::v_stack(&na(&row), &na(&col)).shape()));
+    probe::<DenseMatrix<f64>>("dense");
+    probe::<Array2<f64>>("ndarray");
+    probe::<DMatrix<f64>>("nalgebra");
 }
